@@ -50,13 +50,13 @@ def _engine_targets(ded, results, tier):
             rec["reason"] = f"engine error {type(e).__name__}: {e}"
             rec["trace"] = traceback.format_exc()[-1500:]
         out.append(rec)
-    opts = {"z3_ms": 30000 if tier == "quick" else 60000, "cvc5_s": 60 if tier == "quick" else 120}
+    opts = {"z3_ms": 30000 if tier == "quick" else 60000, "cvc5_s": 60 if tier == "quick" else 120, "retry": False}
     res = discharge([o for _, o in all_obls], opts=opts) if all_obls else []
     # retry unknowns alone (idle pool, doubled budget) before they count as failed
     for k, ((rec, o), r) in enumerate(zip(all_obls, res)):
         if r["result"] in ("unknown", "error"):
             from .solve import discharge_one
-            r2 = discharge_one((o.name, o.to_smt2(), {"z3_ms": 4 * opts["z3_ms"], "cvc5_s": 2 * opts["cvc5_s"]}))
+            r2 = discharge_one((o.name, o.to_smt2(), {"z3_ms": 3 * opts["z3_ms"], "cvc5_s": 2 * opts["cvc5_s"], "retry": False}))
             r2["ms"] += r["ms"]
             res[k] = r2
     for (rec, o), r in zip(all_obls, res):
